@@ -874,7 +874,8 @@ def gen_cases(ctx):
         for n in lens + extra + [-1]:
             key = rnd_bytes(rng, rng.choice((0, 1, 20, 32, 64, 100)))
             seed = rnd_bytes(rng, rng.randrange(0, 80))
-            cases.append((['prfplus', [p, key, seed, n]], 'prfplus', (p, key, seed, n)))
+            cases.append((['prfplus' if n <= 1000 else 'prfplus_tail', [p, key, seed, n]], 'prfplus',
+                          (p, key, seed, n)))
     cases.append((['prfplus', [3, b'k', b's', 10]], 'prfplus', (3, b'k', b's', 10)))    # unsupported PRF id
     # IKE_SA keys: all suites x initial/rekey x role
     reps = 1 if quick else 4
@@ -1097,6 +1098,8 @@ def correspond(ctx):
     meta = []
     for inp, kind, a in raw:
         out = run_impl(kind, a)
+        if inp[0] == 'prfplus_tail' and isinstance(out, bytes):
+            out = [len(out), out[-64:]]
         cases.append((inp, out))
         meta.append((kind, a))
         nontrivial = not (isinstance(out, list) and out[:1] == ['raise'])
